@@ -471,7 +471,14 @@ func (ctx *Context) evaluate() {
 		points IntType
 	}
 
+	// 嵌套的双十字算符(如 4c(1c9m1+4))：进入内层前保存外层状态，内层结算后恢复
+	dcStateStack := []struct {
+		pool   IntType
+		points IntType
+	}{}
+
 	dcInit := func() {
+		dcStateStack = append(dcStateStack, dcState)
 		dcState.pool = 1    // 骰数，默认1
 		dcState.points = 10 // 面数，默认d10
 	}
@@ -1129,6 +1136,8 @@ func (ctx *Context) evaluate() {
 				return
 			}
 			success, _, _, detailText, within := rollDoubleCross(ctx.RandSrc, addLine, dcState.pool, dcState.points, getRollMode(), func(n IntType) bool { return !numOpCountAdd(n) })
+			dcState = dcStateStack[len(dcStateStack)-1]
+			dcStateStack = dcStateStack[:len(dcStateStack)-1]
 			if !within {
 				return
 			}
